@@ -41,6 +41,7 @@ static void arg_done(var e, int isT) {
   vt_free(e);
 }
 
+static unsigned alarm_secs = 30;
 static long long clamp32(long long i) { return i > (1LL << 30) ? (1LL << 30) : i < -(1LL << 30) ? -(1LL << 30) : i; }
 
 static void project(struct Slot* so, int o) {
@@ -138,8 +139,9 @@ int main(int argc, char** argv) {
   if (argc > 2) { ev_fd = open(argv[2], O_WRONLY | O_CREAT | O_TRUNC, 0644); if (ev_fd < 0) { perror(argv[2]); return 9; } }
   hc_install(0);
   while (hc_next(f)) {
-    alarm(30);
+    alarm(alarm_secs);
     const char* op = hc_w[0];
+    if (hc_is(0, "alarm")) { alarm_secs = (unsigned)hc_int(1); continue; }
     if (hc_is(0, "types")) { etk = vt_kind_of(hc_w[1]); continue; }
     if (hc_is(0, "K")) { vt_define(vt_k, &vt_nk, etk, (int)hc_int(1), hc_w[2]); continue; }
     if (hc_is(0, "reset")) {
@@ -189,6 +191,10 @@ int main(int argc, char** argv) {
       if (hc_is(0, "push")) HC_TRY(push(c, e)); else HC_TRY(append(c, e));
       arg_done(e, isT);
       emit(objs, op, o, v, 0, 0, 0, "", hc_exc, 0);
+    } else if (hc_is(0, "pushsame")) {
+      /* the object already at index 0 once more (Tuple: the same pointer twice) */
+      HC_TRY(push(c, get(c, $I(0))));
+      emit(objs, "pushsame", o, 0, 0, 0, 0, "", hc_exc, 0);
     } else if (hc_is(0, "pop")) {
       HC_TRY(pop(c));
       emit(objs, "pop", o, 0, 0, 0, 0, "", hc_exc, 0);
